@@ -63,6 +63,7 @@ func hasPrefixPath(p, prefix []string) bool {
 }
 
 func runC15(c *core.Ctx) error {
+	defer func() { core.ForceReify = false }()
 	c.Rule = "graphs and selectors as in C07 whose unrestricted walk succeeds; node budgets 0..|visits|+1 (all in thorough, sampled in quick), link budgets 0..|loads|+1, every start path from the unrestricted visit sequence (sampled in quick), visit-once, random skip sets; each control on its own; non-trivial = unrestricted walk of at least 3 visits; distinct by case line"
 	c.Explanation = "theorems: budget_prefix (visits under node budget N are the first N unrestricted visits, error iff N < count), link-budget analogue, once/skip/start-at lemmas on the model; the budget check's test-then-decrement shape is re-extracted from walk.go"
 	c.Assumptions = []string{"no preloader (its interaction with budgets is documented as approximate)", "visit callbacks return nil"}
@@ -84,6 +85,14 @@ func runC15(c *core.Ctx) error {
 		} else {
 			spec = core.GenSelector(c.Rand, g, 0, false, false)
 			distSelector(c, spec)
+		}
+		// specs with ExploreInterpretAs clauses are walked with an identity reifier registered (without one the walk is an
+		// error and there is nothing to restrict): the budget, start-at and skip oracles below then apply to them as to any
+		// other walk; the model has no reifiers, so these cases are not sent to it
+		reify := strings.Contains(spec.Term(), " s7e ")
+		core.ForceReify = reify
+		if reify {
+			c.Dist("interpret-as-with-identity-reifier")
 		}
 		U := core.RunWalk(g, spec, core.WalkCfg{}, false)
 		if U.Compile != "" || U.Outcome != "ok" || len(U.Visits) == 0 {
@@ -111,7 +120,9 @@ func runC15(c *core.Ctx) error {
 			if !eqStrs(visitKeys(R.Visits), uv[:wantN]) || R.Outcome != wantOutcome {
 				fail("C15/node-budget-not-prefix", w, R, strings.Join(uv[:wantN], " | ")+" => "+wantOutcome)
 			}
-			cases = append(cases, walkCase{g, spec, w})
+			if !reify {
+				cases = append(cases, walkCase{g, spec, w})
+			}
 		}
 		// link budgets
 		for M := 0; M <= len(ul)+1; M++ {
@@ -129,7 +140,9 @@ func runC15(c *core.Ctx) error {
 			if !eqStrs(rl, ul[:min(M, len(ul))]) || R.Outcome != wantOutcome || !isPrefix(visitKeys(R.Visits), uv) {
 				fail("C15/link-budget-not-prefix", w, R, "loads "+strings.Join(ul[:min(M, len(ul))], ",")+" => "+wantOutcome)
 			}
-			cases = append(cases, walkCase{g, spec, w})
+			if !reify {
+				cases = append(cases, walkCase{g, spec, w})
+			}
 		}
 		// start-at paths from the unrestricted sequence
 		firstAt := map[string]int{}
@@ -154,7 +167,9 @@ func runC15(c *core.Ctx) error {
 			if !isSubsequence(loadsOfEvents(R.Events), ul) {
 				fail("C15/start-at-extra-loads", w, R, "loads must be a sub-sequence of "+strings.Join(ul, ","))
 			}
-			cases = append(cases, walkCase{g, spec, w})
+			if !reify {
+				cases = append(cases, walkCase{g, spec, w})
+			}
 		}
 		// visit links once
 		{
@@ -171,7 +186,9 @@ func runC15(c *core.Ctx) error {
 			if dup || !isSubsequence(visitKeys(R.Visits), uv) || R.Outcome != "ok" {
 				fail("C15/once-loads-twice-or-not-subsequence", w, R, "each link once; visits a subsequence of the unrestricted walk")
 			}
-			cases = append(cases, walkCase{g, spec, w})
+			if !reify {
+				cases = append(cases, walkCase{g, spec, w})
+			}
 		}
 		// skip sets
 		if len(ul) > 0 {
@@ -218,7 +235,9 @@ func runC15(c *core.Ctx) error {
 						fail("C15/skip-removes-other-than-subtree", w, R, strings.Join(want, " | ")+" => ok")
 					}
 				}
-				cases = append(cases, walkCase{g, spec, w})
+				if !reify {
+					cases = append(cases, walkCase{g, spec, w})
+				}
 			}
 		}
 		if len(cases) >= 1500 {
@@ -263,4 +282,26 @@ func pathOfEvent(e string) []string {
 		out = append(out, string(b))
 	}
 	return out
+}
+
+// interpretAsInUnion: is some ExploreInterpretAs clause a direct member of a union?
+func interpretAsInUnion(v core.Val) bool {
+	for _, e := range v.M {
+		if string(e.K) == "|" {
+			for _, m := range e.V.L {
+				if len(m.M) == 1 && string(m.M[0].K) == "~" {
+					return true
+				}
+			}
+		}
+		if interpretAsInUnion(e.V) {
+			return true
+		}
+	}
+	for _, x := range v.L {
+		if interpretAsInUnion(x) {
+			return true
+		}
+	}
+	return false
 }
